@@ -37,6 +37,59 @@ func Key(maxLen int) *rapid.Generator[[]byte] {
 	})
 }
 
+// LongKey draws a key of up to maxLen bytes made of a prefix of a block-aligned or
+// block-straddling length (0,1,7,8,9,15,16,17,31,32,33 bytes, all the same filler byte or a
+// counting pattern) followed by a short tail over all byte values: keys that agree over whole
+// machine words and differ at any offset inside or across a word, with any byte distance
+// (salted / hashed / binary row keys; word-at-a-time comparison loops).
+func LongKey(maxLen int) *rapid.Generator[[]byte] {
+	return rapid.Custom(func(t *rapid.T) []byte {
+		pl := rapid.SampledFrom([]int{0, 1, 7, 8, 9, 15, 16, 17, 31, 32, 33}).Draw(t, "plen")
+		if pl > maxLen {
+			pl = maxLen
+		}
+		fill := rapid.SampledFrom([]byte{0x00, 'k', 0x7f, 0x80, 0xff}).Draw(t, "fill")
+		count := rapid.Bool().Draw(t, "count")
+		out := make([]byte, 0, maxLen)
+		for i := 0; i < pl; i++ {
+			if count {
+				out = append(out, fill+byte(i))
+			} else {
+				out = append(out, fill)
+			}
+		}
+		n := rapid.IntRange(0, min(9, maxLen-pl)).Draw(t, "tail")
+		for i := 0; i < n; i++ {
+			if rapid.Bool().Draw(t, "hotb") {
+				out = append(out, rapid.SampledFrom([]byte{0x00, 0x01, 0x7f, 0x80, 0x81, 0xfe, 0xff, ',', 'a'}).Draw(t, "hb"))
+			} else {
+				out = append(out, rapid.Byte().Draw(t, "b"))
+			}
+		}
+		return out
+	})
+}
+
+// Perturb changes one byte of k (any position) to a drawn value, or flips its top bit.
+func Perturb(t *rapid.T, k []byte) []byte {
+	out := append([]byte(nil), k...)
+	if len(out) == 0 {
+		return out
+	}
+	i := rapid.IntRange(0, len(out)-1).Draw(t, "pos")
+	switch rapid.IntRange(0, 3).Draw(t, "how") {
+	case 0:
+		out[i] ^= 0x80
+	case 1:
+		out[i] = rapid.Byte().Draw(t, "to")
+	case 2:
+		out[i]++
+	case 3:
+		out[i]--
+	}
+	return out
+}
+
 // KeyFrom draws a key over a fixed alphabet.
 func KeyFrom(alpha []byte, maxLen int) *rapid.Generator[[]byte] {
 	return rapid.Custom(func(t *rapid.T) []byte {
@@ -102,6 +155,8 @@ func Boundaries(t *rapid.T, n int, keyMax int) [][]byte {
 		var b []byte
 		if len(out) > 0 && rapid.IntRange(0, 2).Draw(t, "derive") == 0 {
 			b = Near(t, out[rapid.IntRange(0, len(out)-1).Draw(t, "from")])
+		} else if keyMax >= 3 && rapid.IntRange(0, 5).Draw(t, "longb") == 0 {
+			b = LongKey(24).Draw(t, "bkeylong")
 		} else {
 			b = Key(keyMax).Draw(t, "bkey")
 		}
